@@ -144,7 +144,7 @@ fn builder(base: &Path, tree: &TreeSpec, cfg: &WalkCfg) -> WalkBuilder {
         b.sort_by_file_name(|a, b| a.cmp(b));
     }
     b.require_git(false);
-    b.parents(false);
+    b.parents(cfg.parents);
     b.max_depth(cfg.max_depth);
     b.max_filesize(cfg.max_filesize);
     b.follow_links(cfg.follow_links);
@@ -434,6 +434,20 @@ fn gen_case_c06(sub: u64, thorough: bool) -> Case {
         }
         let mut seen = BTreeSet::new();
         tree.nodes.retain(|n| seen.insert(n.path.clone()));
+    }
+    if cfg.ignore_files && rng.chance(1, 3) {
+        // ignore files of the roots' ancestors apply; some of them carry a malformed line next to
+        // their valid rules (reported as an error, the valid rules still count)
+        cfg.parents = true;
+        for n in tree.nodes.iter_mut() {
+            if let NodeKind::Text(t) = &mut n.kind {
+                let dir = n.path[..n.path.rfind('/').unwrap_or(0)].to_string();
+                let above_a_root = tree.roots.iter().any(|r| r.starts_with(&format!("{dir}/")));
+                if above_a_root && rng.chance(1, 2) {
+                    t.push_str("broken[\n");
+                }
+            }
+        }
     }
     // With a size limit both walkers stat every file; that stat failing for one file (it was
     // listed, then cannot be examined) must not make either of them drop it.
